@@ -386,6 +386,15 @@ class Process:
             # https://github.com/giampaolo/psutil/issues/2366#issuecomment-2381646555
             self._create_time = self._proc.create_time(fast_only=True)
             return (self.pid, self._create_time)
+        elif LINUX:
+            # Identify the process by its start time relative to boot.
+            # The absolute creation time is derived from the boot time,
+            # which changes every time the system clock is updated: the
+            # same process would get different identities (and be
+            # considered "PID reused") depending on when the Process
+            # instances were created.
+            self.create_time()
+            return (self.pid, self._proc.create_time(monotonic=True))
         else:
             return (self.pid, self.create_time())
 
